@@ -42,8 +42,8 @@ constexpr auto atanh_check(T const x) noexcept -> T
             T(1) < abs(x)                                     ? etl::numeric_limits<T>::quiet_NaN()
         : etl::numeric_limits<T>::epsilon() > (T(1) - abs(x)) ? sgn(x) * etl::numeric_limits<T>::infinity()
                                                               :
-                                                              // indistinguishable from zero
-            etl::numeric_limits<T>::epsilon() > abs(x) ? T(0)
+                                                              // atanh(x) = x + x^3/3 + ...: indistinguishable from x
+            etl::numeric_limits<T>::epsilon() > abs(x) ? x
                                                        :
                                                        // else
             atanh_compute(x)
